@@ -1,0 +1,63 @@
+/*
+ * cmi_verif.h - Optional observation hooks for external verification harnesses.
+ *
+ * Everything in this file is inert unless the library is compiled with
+ * -DCIMBA_VERIF. With the guard off, CMI_VERIF_EMIT() expands to nothing and
+ * no symbol is defined, so the library is unchanged.
+ *
+ * With the guard on, a harness may install a thread local sink function that
+ * receives one call per hooked linearization point (event dispatch, wakeup
+ * event kinds, resource guard queue operations). The sink must not call back
+ * into the library in a way that changes its state.
+ */
+
+#ifndef CIMBA_CMI_VERIF_H
+#define CIMBA_CMI_VERIF_H
+
+#ifdef CIMBA_VERIF
+
+#include <stdint.h>
+#include <stddef.h>
+
+typedef void (cmi_verif_sink_func)(const char *ev,
+                                   uint64_t u,
+                                   const void *p,
+                                   const void *q,
+                                   int64_t i,
+                                   double d);
+
+extern _Thread_local cmi_verif_sink_func *cmi_verif_sink;
+
+#define CMI_VERIF_EMIT(ev, u, p, q, i, d) \
+    do { \
+        if (cmi_verif_sink != NULL) { \
+            (*cmi_verif_sink)((ev), (uint64_t)(u), (const void *)(p), \
+                              (const void *)(q), (int64_t)(i), (double)(d)); \
+        } \
+    } while (0)
+
+/* Address sanitizer fiber annotations, only if also built with ASan */
+#if defined(__SANITIZE_ADDRESS__)
+  #define CMI_VERIF_ASAN 1
+#elif defined(__has_feature)
+  #if __has_feature(address_sanitizer)
+    #define CMI_VERIF_ASAN 1
+  #endif
+#endif
+
+#ifdef CMI_VERIF_ASAN
+extern void __sanitizer_start_switch_fiber(void **fake_stack_save,
+                                           const void *bottom, size_t size);
+extern void __sanitizer_finish_switch_fiber(void *fake_stack_save,
+                                            const void **bottom_old,
+                                            size_t *size_old);
+extern void __asan_unpoison_memory_region(void const volatile *addr, size_t size);
+#endif
+
+#else /* !CIMBA_VERIF */
+
+#define CMI_VERIF_EMIT(ev, u, p, q, i, d) ((void)0)
+
+#endif /* CIMBA_VERIF */
+
+#endif /* CIMBA_CMI_VERIF_H */
